@@ -66,8 +66,8 @@ def shrink(prog, fails):
 
 def float_tie(prog, i, impl_decision, model_decisions):
     """the exact model and the float implementation take different decisions at op i: is the request on a feasibility boundary
-    that float rounding of the history so far has moved by less than one part in a million?  Decided by re-running both with the
-    requested quantity of op i scaled by 1 - 1e-6 and by 1 + 1e-6: a tie iff both agree on both neighbours and the two neighbours
+    that float rounding of the history so far has moved by less than one part in a million (one part in a thousand for requests
+    below a nano-unit)?  Decided by re-running both with the requested quantity of op i scaled by 1 - 1e-6 and by 1 + 1e-6: a tie iff both agree on both neighbours and the two neighbours
     are decided differently (the boundary lies between them).  Ties are counted in the evidence and not judged; directed
     exactly-on-boundary cases (short decimals, fresh containers: C03.boundary_cases) are not subject to this."""
     import copy
@@ -75,17 +75,27 @@ def float_tie(prog, i, impl_decision, model_decisions):
     op = prog['ops'][i]
     if not (isinstance(op.get('q'), dict) and 'v' in op['q']):
         return False
-    ps = []
-    for f in ('0.999999', '1.000001'):
-        p2 = copy.deepcopy(dict(prog, ops=prog['ops'][:i + 1]))
-        p2['ops'][i]['q']['v'] = format(Decimal(str(p2['ops'][i]['q']['v'])) * Decimal(f), 'f')
-        ps.append(p2)
+    bands = [('0.999999', '1.000001')]
     try:
-        a = [bool(impl_decision(p, i)) for p in ps]
-        m = model_decisions(ps, i)
+        if abs(dsl.qty_val(op['q'])) < F(1, 10**9):
+            # requests below a nanolitre / nanogram / nanomole: ten decimals of a micro-unit are up to 1e-4 of the request itself
+            bands.append(('0.999', '1.001'))
     except Exception:  # noqa
-        return False
-    return None not in m and a == [bool(x) for x in m] and a[0] != a[1]
+        pass
+    for lo, hi in bands:
+        ps = []
+        for f in (lo, hi):
+            p2 = copy.deepcopy(dict(prog, ops=prog['ops'][:i + 1]))
+            p2['ops'][i]['q']['v'] = format(Decimal(str(p2['ops'][i]['q']['v'])) * Decimal(f), 'f')
+            ps.append(p2)
+        try:
+            a = [bool(impl_decision(p, i)) for p in ps]
+            m = model_decisions(ps, i)
+        except Exception:  # noqa
+            return False
+        if None not in m and a == [bool(x) for x in m] and a[0] != a[1]:
+            return True
+    return False
 
 
 def run(chk, gens, oracle, tag, rule, nontrivial_key, model_fn='showRun', imports=IMPORTS, atol=1e-8, rtol=2e-8,
